@@ -7,8 +7,8 @@ Mirrors, over the *extracted* character classes (`Extracted/CharClass.lean`, reg
 `u : UC`):
 
 * `src/heap_print.rs`: `non_quoted_graphic_token`, `non_quoted_token`, `char_to_string`,
-  `HCPrinter::print_op_addendum` (`printAtom`), `requires_space`, `PrinterOutputter::append`
-  (`appendTok`);
+  `HCPrinter::print_op_addendum` (`printAtom`), `requires_space`, `ambiguity_check`,
+  `push_space_if_amb!`/`append_str!`/`push_char!`/`PrinterOutputter::append` (`emitItem`, `pushChar`);
 * `src/parser/lexer.rs`: `scan_for_layout`/`consume_layout`/`single_line_comment`/
   `bracketed_comment` (`scanLayout`, a one-character-per-step state machine), `next_token`
   (`nextTokAt`), `name_token`, `variable_token`, `get_single_quoted_item`/`_char`,
@@ -115,10 +115,46 @@ def requiresSpace (u : UC) (prev next : List Char) : Bool :=
     else false
   | _, _ => false
 
-/-- `PrinterOutputter::append` (and `push_space_if_amb!` + `append_str!`, which decide the same
-    way because the checked tail is a suffix of the output): emit a space iff `requires_space`. -/
-def appendTok (u : UC) (out tok : List Char) : List Char :=
-  if requiresSpace u out tok then out ++ ' ' :: tok else out ++ tok
+/-- the printer's output: the text and `last_item_idx` (counted in characters here). -/
+structure Out where
+  text : List Char
+  lastIdx : Nat
+  deriving Repr
+
+def Out.empty : Out := ⟨[], 0⟩
+
+/-- `&outputter.as_str()[last_item_idx..]` -/
+def Out.tail (o : Out) : List Char := o.text.drop o.lastIdx
+
+/-- `ambiguity_check(outputter, quoted, last_item_idx, atom)`: a text that would be quoted (and,
+    as written, every number and variable name) is checked as if it started with a quote. -/
+def ambiguityCheck (u : UC) (quoted : Bool) (o : Out) (atom : List Char) : Bool :=
+  if atom == [','] || !quoted || nonQuotedToken u atom then requiresSpace u o.tail atom
+  else requiresSpace u o.tail ['\'']
+
+/-- `push_space_if_amb!(self, amb, { append_str!(self, text) })`: the macro pushes a space when the
+    ambiguity check says so, `append_str!` records `last_item_idx` and `PrinterOutputter::append`
+    pushes a space when `requires_space(contents, text)`. -/
+def emitItem (u : UC) (quoted : Bool) (o : Out) (amb text : List Char) : Out :=
+  let t1 := if ambiguityCheck u quoted o amb then o.text ++ [' '] else o.text
+  let t2 := if requiresSpace u t1 text then t1 ++ ' ' :: text else t1 ++ text
+  ⟨t2, t1.length⟩
+
+/-- `push_char!(self, c)` -/
+def pushChar (o : Out) (c : Char) : Out := ⟨o.text ++ [c], o.text.length + 1⟩
+
+/-- what the printer does for one item: a token text (with the text its ambiguity check looks at)
+    or a single pushed character (`(`, `)`, `,`, `[`, `]`, `{`, `}`, an explicit space). -/
+inductive Item where
+  | tok (amb text : List Char)
+  | ch (c : Char)
+  deriving Repr
+
+def emit (u : UC) (quoted : Bool) (o : Out) : Item → Out
+  | .tok amb text => emitItem u quoted o amb text
+  | .ch c => pushChar o c
+
+def render (u : UC) (quoted : Bool) (items : List Item) : Out := items.foldl (emit u quoted) Out.empty
 
 /-! ## lexer.rs -/
 
